@@ -27,6 +27,23 @@ FROZEN_EXC_BASES = {
     "rep:OtherBase": "ext:builtins.BaseException",
 }
 
+# names that are the SAME class object (Python >= 3.11); checked against the running interpreter below
+EXC_ALIASES = {
+    "ext:concurrent.futures.TimeoutError": "ext:builtins.TimeoutError",
+    "ext:concurrent.futures._base.TimeoutError": "ext:builtins.TimeoutError",
+    "ext:asyncio.TimeoutError": "ext:builtins.TimeoutError",
+    "ext:asyncio.exceptions.TimeoutError": "ext:builtins.TimeoutError",
+    "ext:concurrent.futures.CancelledError": "ext:concurrent.futures._base.CancelledError",
+    "ext:socket.timeout": "ext:builtins.TimeoutError",
+    "ext:builtins.IOError": "ext:builtins.OSError",
+    "ext:builtins.EnvironmentError": "ext:builtins.OSError",
+}
+
+
+def canon_exc(qual):
+    return EXC_ALIASES.get(qual, qual)
+
+
 UNSAFE_YAML_LOADERS = {"Loader", "UnsafeLoader", "FullLoader", "CLoader", "CUnsafeLoader", "CFullLoader", "BaseLoader", "CBaseLoader"}
 SAFE_YAML_LOADERS = {"SafeLoader", "CSafeLoader"}
 UNSAFE_YAML_CALLS = {"load", "load_all", "unsafe_load", "unsafe_load_all", "full_load", "full_load_all"}
@@ -123,12 +140,24 @@ def cross_read():
             isinstance(n, ast.Attribute) and n.attr == "shutdown_default_executor" for n in ast.walk(tree)
         )
     facts["asyncio.run (Runner.close) joins the default executor"] = confirmed
+    # --- concurrent.futures.TimeoutError / asyncio.TimeoutError are the builtin TimeoutError
+    for mod, rel in (("concurrent.futures", "concurrent/futures/_base.py"), ("asyncio", "asyncio/exceptions.py")):
+        tree = _parse(os.path.join(std, rel)) if std else None
+        confirmed = None
+        if tree is not None:
+            confirmed = any(
+                isinstance(n, ast.Assign) and any(getattr(t, "id", None) == "TimeoutError" for t in n.targets) and getattr(n.value, "id", None) == "TimeoutError" for n in tree.body
+            ) or not any(isinstance(n, ast.ClassDef) and n.name == "TimeoutError" for n in tree.body)
+        facts["%s.TimeoutError is the builtin TimeoutError" % mod] = confirmed
     _cache["facts"] = facts
     return facts
 
 
 def exc_bases(qual, program=None):
     """direct bases of an exception class given by qualified name"""
+    qual = canon_exc(qual)
+    if qual == "ext:concurrent.futures._base.CancelledError":
+        return ["ext:builtins.Exception"]
     if qual in FROZEN_EXC_BASES:
         return [FROZEN_EXC_BASES[qual]]
     if program is not None and qual in program.classes:
@@ -143,7 +172,7 @@ def exc_bases(qual, program=None):
 def exc_mro(qual, program=None):
     out, todo = [], [qual]
     while todo:
-        q = todo.pop(0)
+        q = canon_exc(todo.pop(0))
         if q in out:
             continue
         out.append(q)
